@@ -113,15 +113,15 @@ Section StepSet.
   Qed.
 
   (* the assignment is stored and nothing is sent: variable not evented, or already deferred *)
-  Lemma set_quiet m sp i d vr pv x :
-    R c m sp -> nth_error c i = Some d -> nth_error (vars m) i = Some vr -> nth_error (sp_vars sp) i = Some pv ->
+  Lemma set_quiet t0 m sp i d vr pv x :
+    Rt c t0 m sp -> nth_error c i = Some d -> nth_error (vars m) i = Some vr -> nth_error (sp_vars sp) i = Some pv ->
     valid d x = true -> (d_ev d = false \/ v_dfr vr = true) ->
-    R c (set_vars m (upd (vars m) i (set_val vr (Some x))))
-        (sp_set_vars sp (upd (sp_vars sp) i (p_changed pv x (d_ev d) (sp_now sp)))).
+    Rt c t0 (set_vars m (upd (vars m) i (set_val vr (Some x))))
+         (sp_set_vars sp (upd (sp_vars sp) i (p_changed pv x (d_ev d) (sp_now sp)))).
   Proof.
     intros [Hnow [Hns [H0 [Hv [Htm Hsubs]]]]] Hc Hvr Hp Hvalid Hcase.
     destruct Hv as [L1 [L2 Hv']]. pose proof (Hv' i d vr pv Hc Hvr Hp) as [Hval [Hvd [Hrate Hev]]].
-    unfold R. cbn [now nsid vars timers subs set_vars sp_set_vars sp_now sp_nsid sp_vars sp_subs].
+    unfold Rt. cbn [now nsid vars timers subs set_vars sp_set_vars sp_now sp_nsid sp_vars sp_subs].
     split; [exact Hnow|]. split; [exact Hns|]. split; [exact H0|]. split; [|split].
     - apply vrel_upd with (d := d); [exact (conj L1 (conj L2 Hv'))|exact Hc|].
       unfold var_ok. cbn [set_val v_val v_last v_dfr p_changed p_val p_trig p_dirty].
@@ -136,18 +136,19 @@ Section StepSet.
   Qed.
 
   (* the change is parked on a timer *)
-  Lemma set_arm m sp i d vr pv x :
-    R c m sp -> nth_error c i = Some d -> nth_error (vars m) i = Some vr -> nth_error (sp_vars sp) i = Some pv ->
+  Lemma set_arm t0 m sp i d vr pv x :
+    Rt c t0 m sp -> t0 <= now m ->
+    nth_error c i = Some d -> nth_error (vars m) i = Some vr -> nth_error (sp_vars sp) i = Some pv ->
     valid d x = true -> d_ev d = true -> v_dfr vr = false -> now m < v_last vr + d_rate d ->
-    R c (set_timers (set_vars m (upd (vars m) i (set_dfr (set_val vr (Some x)) true)))
-                    (timers m ++ [(v_last vr + d_rate d, i)]))
-        (sp_set_vars sp (upd (sp_vars sp) i (p_changed pv x true (sp_now sp)))).
+    Rt c t0 (set_timers (set_vars m (upd (vars m) i (set_dfr (set_val vr (Some x)) true)))
+                     (timers m ++ [(v_last vr + d_rate d, i)]))
+         (sp_set_vars sp (upd (sp_vars sp) i (p_changed pv x true (sp_now sp)))).
   Proof.
-    intros [Hnow [Hns [H0 [Hv [Htm Hsubs]]]]] Hc Hvr Hp Hvalid Hevd Hdf Hlt.
+    intros [Hnow [Hns [H0 [Hv [Htm Hsubs]]]]] Ht0 Hc Hvr Hp Hvalid Hevd Hdf Hlt.
     destruct Hv as [L1 [L2 Hv']]. pose proof (Hv' i d vr pv Hc Hvr Hp) as [Hval [Hvd [Hrate Hev]]].
     rewrite Hevd in Hev. destruct Hev as [Hl [Hdd [Hle Hchg]]].
     pose proof (no_timer _ _ _ _ _ Htm Hvr Hdf) as Hno.
-    unfold R. cbn [now nsid vars timers subs set_vars set_timers sp_set_vars sp_now sp_nsid sp_vars sp_subs].
+    unfold Rt. cbn [now nsid vars timers subs set_vars set_timers sp_set_vars sp_now sp_nsid sp_vars sp_subs].
     split; [exact Hnow|]. split; [exact Hns|]. split; [exact H0|]. split; [|split].
     - apply vrel_upd with (d := d); [exact (conj L1 (conj L2 Hv'))|exact Hc|].
       unfold var_ok. cbn [set_val set_dfr v_val v_last v_dfr p_changed p_val p_trig p_dirty].
@@ -159,7 +160,7 @@ Section StepSet.
           assert (Hne : i <> j). { intros ->. apply Hno. apply in_map_iff. exists (w, j). auto. }
           exists d', v. rewrite nth_error_upd_ne by auto. auto.
         * inversion Heq; subst w j. exists d, (set_dfr (set_val vr (Some x)) true).
-          rewrite (nth_error_upd_eq _ _ _ _ Hvr). cbn. repeat split; auto.
+          rewrite (nth_error_upd_eq _ _ _ _ Hvr). cbn. repeat split; auto. lia.
       + intros j v Hv1 Hd1. rewrite map_app. apply in_or_app. destruct (Nat.eq_dec i j) as [->|Hne].
         * right. cbn. auto.
         * left. rewrite nth_error_upd_ne in Hv1 by auto. eapply H3; eauto.
@@ -174,14 +175,14 @@ Section StepSet.
   Qed.
 
   (* the change is evented at once *)
-  Lemma set_immediate m sp i d vr pv x :
-    R c m sp -> nth_error c i = Some d -> nth_error (vars m) i = Some vr -> nth_error (sp_vars sp) i = Some pv ->
+  Lemma set_immediate t0 m sp i d vr pv x :
+    Rt c t0 m sp -> nth_error c i = Some d -> nth_error (vars m) i = Some vr -> nth_error (sp_vars sp) i = Some pv ->
     valid d x = true -> d_ev d = true -> v_dfr vr = false -> v_last vr + d_rate d <= now m ->
     let m1 := set_vars m (upd (vars m) i (set_last (set_val vr (Some x)) (now m))) in
     let sp1 := sp_set_vars sp (upd (sp_vars sp) i (p_changed pv x true (sp_now sp))) in
     exists sp2,
       check_runs c None (sp_now sp) sp1 (mk_runs (now m) [i] (snd (send_batch c m1))) = (sp2, []) /\
-      R c (fst (send_batch c m1)) (sp_set_now sp2 (sp_now sp)).
+      Rt c t0 (fst (send_batch c m1)) (sp_set_now sp2 (sp_now sp)).
   Proof.
     intros HR Hc Hvr Hp Hvalid Hevd Hdf Hle m1 sp1.
     pose proof HR as [Hnow [Hns [H0 [Hv [Htm Hsubs]]]]].
@@ -190,15 +191,15 @@ Section StepSet.
     set (PC := p_changed pv x true (sp_now sp)).
     set (PV := p_triggered PC (now m)).
     set (sp1' := sp_set_vars sp (upd (sp_vars sp) i PV)).
-    assert (HR0 : R0 c m1 sp1').
-    { unfold R0, m1, sp1'. cbn [now nsid vars timers subs set_vars sp_set_vars sp_now sp_nsid sp_vars sp_subs].
+    assert (HR0 : R0t c t0 m1 sp1').
+    { unfold R0t, m1, sp1'. cbn [now nsid vars timers subs set_vars sp_set_vars sp_now sp_nsid sp_vars sp_subs].
       split; [exact Hnow|]. split; [exact Hns|]. split; [exact H0|]. split; [|split].
       - apply vrel_upd with (d := d); [exact (conj L1 (conj L2 Hv'))|exact Hc|].
         unfold var_ok, PV, PC. cbn [set_val set_last v_val v_last v_dfr p_changed p_triggered p_val p_trig p_dirty].
         rewrite Hevd. repeat split; auto; try lia; try (intros; discriminate).
       - eapply timers_upd_nodfr; eauto.
       - eapply subs_ok_weaken; eauto. }
-    destruct (batch_R c m1 sp1' [] HR0) as [sps' [Hfold [HR2 [Hcount _]]]].
+    destruct (batch_Rt c t0 m1 sp1' [] HR0) as [sps' [Hfold [HR2 [Hcount _]]]].
     assert (Hne : mk_runs (now m) [i] (snd (send_batch c m1)) =
                   [{| r_t := now m; r_trig := [i]; r_notes := snd (send_batch c m1) |}]) by reflexivity.
     rewrite Hne. unfold check_runs. cbn [fold_left].
@@ -215,51 +216,99 @@ Section StepSet.
     - exact HR2.
   Qed.
 
-  Lemma step_set m sp i x : R c m sp -> step_ok c m sp (OSet i x).
+  Lemma Rt_set_now t0 m sp : Rt c t0 m sp -> Rt c t0 m (sp_set_now sp (now m)).
+  Proof. intros [H1 H]. split; [reflexivity|exact H]. Qed.
+
+  (* the assignment, from a state whose pending timers may be overdue (not due at t0 <= now): what the model
+     does is what [spec_assign] expects, the runs pass the specification, the relation is kept *)
+  Lemma set_R t0 m sp i x :
+    Rt c t0 m sp -> t0 <= now m ->
+    exists spA sp1,
+      (forall rs, spec_assign c (finish_step c rs) sp i x (fst (snd (do_set c m i x))) =
+                  finish_step c rs spA None (sp_now sp) []) /\
+      sp_now spA = now m /\
+      check_runs c None (now m) spA (snd (snd (do_set c m i x))) = (sp1, []) /\
+      Rt c t0 (fst (do_set c m i x)) (sp_set_now sp1 (now m)) /\
+      now (fst (do_set c m i x)) = now m /\
+      (forall r, In r (snd (snd (do_set c m i x))) -> r_t r = now m).
   Proof.
-    intros HR. unfold step_ok. cbn [step adv_of]. rewrite Z.add_0_r.
+    intros HR Ht0.
     pose proof HR as [Hnow [Hns [H0 [Hv [Htm Hsubs]]]]].
-    unfold do_set, spec_step.
+    (* nothing is sent: the state spA the specification reaches is related to the model's *)
+    assert (Hquiet : forall m1 spA res,
+               (forall rs, spec_assign c (finish_step c rs) sp i x res = finish_step c rs spA None (sp_now sp) []) ->
+               Rt c t0 m1 spA -> now m1 = now m ->
+               exists spA sp1,
+                 (forall rs, spec_assign c (finish_step c rs) sp i x (fst (snd (m1, (res, @nil run)))) =
+                             finish_step c rs spA None (sp_now sp) []) /\
+                 sp_now spA = now m /\
+                 check_runs c None (now m) spA (snd (snd (m1, (res, @nil run)))) = (sp1, []) /\
+                 Rt c t0 (fst (m1, (res, @nil run))) (sp_set_now sp1 (now m)) /\
+                 now (fst (m1, (res, @nil run))) = now m /\
+                 (forall r, In r (snd (snd (m1, (res, @nil run)))) -> r_t r = now m)).
+    { intros m1 spA res Hs HR1 Hn1. exists spA, spA. cbn [fst snd]. split; [exact Hs|].
+      split; [destruct HR1 as [E _]; congruence|]. split; [reflexivity|]. split.
+      - rewrite <- Hn1. now apply Rt_set_now.
+      - split; [exact Hn1|]. intros r []. }
+    unfold do_set.
     destruct (nth_error c i) as [d|] eqn:Hc.
     2:{ assert (Hlen : (length c <= i)%nat) by now apply nth_error_None.
         destruct Hv as [L1 [L2 _]].
         assert (E1 : nth_error (vars m) i = None) by (apply nth_error_None; lia).
         assert (E2 : nth_error (sp_vars sp) i = None) by (apply nth_error_None; lia).
-        rewrite E1, E2. cbn [fst snd chk].
-        destruct (finish_norun c m sp HR) as [Hf HR']. eexists. split; [exact Hf|]. split; [exact HR'|reflexivity]. }
-    destruct (vrel_nth c _ _ _ i d Hv Hc) as [vr [pv [Hvr [Hp Hok]]]]. rewrite Hvr, Hp.
+        rewrite E1. apply Hquiet with (spA := sp); [|exact HR|reflexivity].
+        intros rs. unfold spec_assign. rewrite E2. reflexivity. }
+    destruct (vrel_nth c _ _ _ i d Hv Hc) as [vr [pv [Hvr [Hp Hok]]]]. rewrite Hvr.
     destruct Hok as [Hval [Hvd [Hrate Hev]]].
     destruct (d_ev d && opt_eqb (v_val vr) (Some x)) eqn:Esame.
     - (* same value *)
       apply andb_true_iff in Esame. destruct Esame as [Hevd Hsame]. apply opt_eqb_eq in Hsame.
-      rewrite Hsame in Hvd. cbn [fst snd]. rewrite Hvd.
-      rewrite <- Hval, Hsame, opt_eqb_refl. cbn [chk].
-      destruct (finish_norun c m (sp_set_vars sp (sp_vars sp)) HR) as [Hf HR'].
-      eexists. split; [exact Hf|]. split; [exact HR'|reflexivity].
+      rewrite Hsame in Hvd.
+      apply Hquiet with (spA := sp_set_vars sp (sp_vars sp)); [|exact HR|reflexivity].
+      intros rs. unfold spec_assign. rewrite Hp, Hc, Hvd, <- Hval, Hsame, opt_eqb_refl. reflexivity.
     - destruct (valid d x) eqn:Evalid; cbn [negb].
-      2:{ cbn [fst snd chk]. destruct (finish_norun c m sp HR) as [Hf HR'].
-          eexists. split; [exact Hf|]. split; [exact HR'|reflexivity]. }
+      2:{ apply Hquiet with (spA := sp); [|exact HR|reflexivity].
+          intros rs. unfold spec_assign. rewrite Hp, Hc, Evalid. reflexivity. }
       assert (Hcase : d_ev d = false \/ opt_eqb (p_val pv) (Some x) = false).
       { apply andb_false_iff in Esame. destruct Esame as [He|He]; [left; exact He|right; now rewrite <- Hval]. }
+      assert (Hspec : forall rs, spec_assign c (finish_step c rs) sp i x (SSet 1) =
+                 finish_step c rs (sp_set_vars sp (upd (sp_vars sp) i (p_changed pv x (d_ev d) (sp_now sp))))
+                             None (sp_now sp) []).
+      { intros rs. unfold spec_assign. rewrite Hp, Hc, Evalid. rewrite (spec_pvs_eq _ _ _ _ _ _ Hp Hcase).
+        reflexivity. }
       destruct (negb (d_ev d) || v_dfr vr) eqn:Eq.
       + (* stored, nothing sent *)
-        cbn [fst snd chk]. rewrite (spec_pvs_eq _ _ _ _ _ _ Hp Hcase).
         assert (Hq : d_ev d = false \/ v_dfr vr = true).
         { apply orb_true_iff in Eq. destruct Eq as [He|He]; [left; now apply negb_true_iff|right; exact He]. }
-        pose proof (set_quiet m sp i d vr pv x HR Hc Hvr Hp Evalid Hq) as HR1.
-        destruct (finish_norun c _ _ HR1) as [Hf HR']. eexists. split; [exact Hf|]. split; [exact HR'|reflexivity].
+        apply Hquiet with (1 := Hspec); [|reflexivity].
+        exact (set_quiet t0 m sp i d vr pv x HR Hc Hvr Hp Evalid Hq).
       + apply orb_false_iff in Eq. destruct Eq as [Hevd Hdf]. apply negb_false_iff in Hevd.
         destruct (v_last vr + d_rate d <=? now m) eqn:El.
         * (* evented at once *)
           apply Z.leb_le in El.
-          destruct (set_immediate m sp i d vr pv x HR Hc Hvr Hp Evalid Hevd Hdf El) as [sp2 [Hrun HR2]].
-          rewrite (surjective_pairing (send_batch c _)). cbn [fst snd chk].
-          rewrite (spec_pvs_eq _ _ _ _ _ _ Hp Hcase), Hevd.
-          eexists. split; [eapply finish_ok; [exact Hrun|exact HR2]|]. split; [exact HR2|].
-          reflexivity.
+          destruct (set_immediate t0 m sp i d vr pv x HR Hc Hvr Hp Evalid Hevd Hdf El) as [sp2 [Hrun HR2]].
+          rewrite (surjective_pairing (send_batch c _)). cbn [fst snd].
+          rewrite Hevd in Hspec.
+          rewrite Hnow in Hrun at 1. rewrite Hnow in HR2.
+          eexists. exists sp2. split; [exact Hspec|]. split; [exact Hnow|].
+          split; [exact Hrun|]. split; [exact HR2|].
+          split; [reflexivity|].
+          intros r Hin. destruct (snd (send_batch c _)); cbn [mk_runs] in Hin; destruct Hin as [<-|[]]; reflexivity.
         * (* parked on a timer *)
-          apply Z.leb_gt in El. cbn [fst snd chk]. rewrite (spec_pvs_eq _ _ _ _ _ _ Hp Hcase), Hevd.
-          pose proof (set_arm m sp i d vr pv x HR Hc Hvr Hp Evalid Hevd Hdf El) as HR1.
-          destruct (finish_norun c _ _ HR1) as [Hf HR']. eexists. split; [exact Hf|]. split; [exact HR'|reflexivity].
+          apply Z.leb_gt in El. rewrite Hevd in Hspec.
+          apply Hquiet with (1 := Hspec); [|reflexivity].
+          exact (set_arm t0 m sp i d vr pv x HR Ht0 Hc Hvr Hp Evalid Hevd Hdf El).
+  Qed.
+
+  Lemma step_set m sp i x : R c m sp -> step_ok c m sp (OSet i x).
+  Proof.
+    intros HR. unfold step_ok. cbn [step adv_of]. rewrite Z.add_0_r.
+    pose proof HR as [Hnow _].
+    destruct (set_R (now m) m sp i x HR (Z.le_refl _)) as [spA [sp1 [Hspec [HnA [Hruns [HR1 [Hn1 _]]]]]]].
+    change (spec_step c sp (OSet i x) (snd (do_set c m i x)))
+      with (spec_assign c (finish_step c (snd (snd (do_set c m i x)))) sp i x (fst (snd (do_set c m i x)))).
+    rewrite Hspec, Hnow.
+    assert (HR2 : R c (fst (do_set c m i x)) (sp_set_now sp1 (now m))) by (eapply Rt_R; [exact HR1|now symmetry]).
+    eexists. split; [eapply finish_ok; [exact Hruns|exact HR2]|]. split; [exact HR2|exact Hn1].
   Qed.
 End StepSet.
